@@ -12,6 +12,11 @@ PROP = {
 }
 PROP["lean_modules"].append("ConduitModel.Props.MonSound")
 
+PROP["jobs"].append({"harness": "h_stream", "comp": "pipe", "n_quick": 400, "n_thorough": 6000, "timeout": 3000,
+                     "why": "v1 clause of C08 (nothing a processor returns can change which position is acknowledged; single-record contract): a trace of "
+                            "the real v1 node graph is not a behaviour of the pipeline model (processor position-change refusal, source acks carry the read position)"})
+PROP["lean_modules"] += ["ConduitModel.Props.C01Stream", "ConduitModel.Facts.Stream"]
+
 META = {
     "text": 'Lean 4 theorems for every batch and every plugin reply: all Batch mutators preserve the alignment/filter-count invariant (C08_aligned_*), flag/nack/SetRecords marks hit exactly the physical index of the addressed active record and nothing else (C08_mark_hits_right_record*, C08_setRecords_hits_right_record, C08_dest_marks_right_record), the split-run ledger releases a run exactly once when all live pieces voted, nack iff some piece failed (C08_run_released_once*, C08_split_all_before_ack, C08_split_nack_only_after_failure); agreement lemmas tie the pure restatements to the monadic model. Whole-pass accounting is decided by equality with the model and the monitors.',
     "note": 'Batch bookkeeping and run ledger proved for all inputs; v2 whole-pass composition is validated by event-log equality with the executable model and by the Lean-defined monitor on every implementation trace (serial and real concurrent fan-out, several sources into one sink, graceful stops), not proved.',
